@@ -55,7 +55,7 @@ func decodeTargets(ct codecType) []target {
 
 func codecStreams(c *mon.Ctx, h *hostile.Harness) {
 	types := allCodecTypes()
-	c.Cases("codec-types", len(types)*c.N(2, 60), func(k *mon.Case) {
+	c.Cases("codec-types", len(types)*c.N(2, 20), func(k *mon.Case) {
 		ct := types[k.Index%len(types)]
 		base, ok := hostile.RandomWire(k.R, ct.t, 0)
 		if !ok {
@@ -159,7 +159,7 @@ func codecStreams(c *mon.Ctx, h *hostile.Harness) {
 			return errClass(err)
 		}}}},
 	}
-	c.Cases("constructors", len(ctors)*c.N(6, 200), func(k *mon.Case) {
+	c.Cases("constructors", len(ctors)*c.N(6, 60), func(k *mon.Case) {
 		ct := ctors[k.Index%len(ctors)]
 		base, ok := hostile.RandomWire(k.R, ct.t, 0)
 		if !ok {
